@@ -1,6 +1,8 @@
 -------------------------- MODULE SimSlidingWindow --------------------------
 (* Simulation wrapper: a history variable (harmless in -simulate mode) collects the behaviour, which is  *)
-(* printed as one line when the trace has reached the requested length.                                *)
+(* printed as one line when the trace has reached the requested length.  TLC evaluates invariants on    *)
+(* every candidate successor; only the candidate whose last step is the IsOk query prints (QueriesOf    *)
+(* holds one counter in this configuration), i.e. one line per simulated trace.                         *)
 EXTENDS SlidingWindow, Sequences, Json
 VARIABLE hist
 MCSizes == ${Sizes}
@@ -11,5 +13,5 @@ MCRelOf == ${RelOf}
 Obs == [size |-> size, probe |-> Ids, ok |-> {c \in Ids : ImplOk(last, ring, c)}]
 SimInit == Init /\ hist = <<>>
 SimNext == Next /\ hist' = Append(hist, [a |-> act', o |-> Obs'])
-TraceOut == Len(hist) < ${Len} \/ PrintT("TRACE " \o ToJson([init |-> [size |-> size], steps |-> hist]))
+TraceOut == Len(hist) < ${Len} \/ act.n # "IsOk" \/ PrintT("TRACE " \o ToJson([init |-> [size |-> size], steps |-> hist]))
 =============================================================================
